@@ -59,7 +59,10 @@ def catalogue(provider):
                    (mk(berlin, 2024, 1, 2, 10), mk(ny, 2024, 1, 2, 11)), (mk(utc, 2024, 1, 2, 8), mk(berlin, 2024, 1, 2, 12))]
     C["TEXT"] = ["plain", "Grüße, Welt; und: \"so\"", "line1\nline2", "a" * 90, "x,y", ""]
     C["INTEGER"] = [0, 5, -3, 100]
-    C["FLOAT;FLOAT"] = [(37.386013, -122.082932), (0.0, 0.0), (-90.0, 180.0)]
+    C["FLOAT;FLOAT"] = [(37.386013, -122.082932), (0.0, 0.0), (-90.0, 180.0),
+                        # every float is a value: more decimals than a hand-written example has, sums that are not "round"
+                        (37.4220936, -122.0840897), (48.85837009999999, 2.2944813000000003), (0.1 + 0.2, 1 / 3), (-33.8567844, 151.213108)]
+    C["INTEGER"] += [2 ** 31 - 1, -2 ** 31, 2 ** 63, 10 ** 20]
     C["UTC-OFFSET"] = [timedelta(hours=1), -timedelta(hours=5), timedelta(hours=5, minutes=45), timedelta(0)]
     C["URI"] = ["https://example.com/a?b=c", "mailto:x@example.com"]
     C["CAL-ADDRESS"] = ["mailto:jane@example.com"]
